@@ -582,11 +582,14 @@ func (g *gen) genFile(fi int) {
 			} else if r.Chance(30) {
 				fn.Oneway = true
 			}
-			fn.Args = g.genFields(fi, r.Intn(3), false)
+			fn.Args = g.genFields(fi, r.Intn(3), true)
 			if !fn.Oneway && r.Chance(40) {
 				vis := g.visible(fi, typeLike, func(d *defInfo) bool { return d.Kind == "exception" })
 				if len(vis) > 0 {
 					fn.Throws = []*Field{{ID: 1, Name: "ex", Type: g.refTo(fi, vis[r.Intn(len(vis))])}}
+					if r.Chance(25) {
+						fn.Throws[0].Default = g.genCV(fi, 1, "")
+					}
 				}
 			}
 			s.Functions = append(s.Functions, fn)
@@ -846,7 +849,7 @@ func (g *gen) inject() {
 		f.Services = append(f.Services, &Service{Name: g.freshName(fi, []string{"Orphan"}), Extends: ext, ExtInc: -1})
 		g.reindex()
 		p.Expect, p.Shape = "basesvc", "err:base-service-missing"
-	default: // the shape of DESIGN §7: typedef cycle reached through a dotted constant identifier
+	default: // typedef cycle reached through a dotted constant identifier (once a fatal recursion in getEnum)
 		n := 1 + r.Intn(2)
 		var al []string
 		for i := 0; i < n; i++ {
@@ -857,12 +860,17 @@ func (g *gen) inject() {
 		for i := 0; i < n; i++ {
 			f.Typedefs[len(f.Typedefs)-n+i].Type = bad(al[(i+1)%n])
 		}
-		if r.Bool() {
+		switch r.Intn(3) {
+		case 0:
 			g.addConst(fi, badID(al[0]+".X"))
-		} else {
+		case 1:
 			g.addField(fi, baseType("i32"), badID(al[0]+".X"))
+		default:
+			f.Services = append(f.Services, &Service{Name: g.freshName(fi, []string{"LoopSvc"}), ExtInc: -1,
+				Functions: []*Function{{Name: "m", Args: []*Field{{ID: 1, Name: "a", Type: baseType("i32"), Default: badID(al[0] + ".X")}}}}})
+			g.reindex()
 		}
-		p.Expect, p.Shape = "crash", "err:typedef-cycle-through-dotted-constant"
+		p.Expect, p.Shape = "undefvalue", "err:typedef-cycle-through-dotted-constant"
 	}
 	g.reindex()
 }
